@@ -468,7 +468,10 @@ impl<'a> Case<'a> {
             eprintln!("  step {op}\n    real: panicked={} ({}) vals={:?} lens={:?}", out.panicked, out.panic_msg, out.vals, out.lens);
             eprintln!("    model: panicked={} vals={:?} lens={:?}", exp.out.panicked, exp.out.vals, exp.out.lens);
         }
-        if out.panicked != exp.out.panicked {
+        if out.panicked != exp.out.panicked && exp.panic_optional && !out.panic_msg.contains("HARNESS") {
+            // either ending is admitted; what matters is the state afterwards (post_check) and further use
+            ctx.stats.bump("optional_panics", out.panicked as u64);
+        } else if out.panicked != exp.out.panicked {
             self.failed = true;
             if out.panic_msg.contains("HARNESS") {
                 ctx.report(&cfgname, "harness", &sig, out.panic_msg.clone(), &desc);
